@@ -141,6 +141,39 @@ class DI:
     steps: int = 2
 
 
+@dataclass
+class DIn:
+    p: int = 1
+    q: Optional[List[str]] = None
+
+
+@dataclass
+class DOut:
+    """dataclass with nested dataclass fields of every container shape"""
+
+    inner: DIn = field(default_factory=DIn)
+    opt: Optional[DIn] = None
+    items: List[DIn] = field(default_factory=list)
+    m: Dict[str, DIn] = field(default_factory=dict)
+    nums: List[int] = field(default_factory=list)
+
+
+class KW(SimObj):
+    """a class that forwards **kwargs nowhere the resolver can see, and a method with a mutable default"""
+
+    def __init__(self, a: int = 1, **kwargs):
+        self._rec(a=a, kwargs=kwargs)
+        self.a = a
+
+    def meth(self, z: List[int] = [1], y: Optional[str] = None):
+        return z
+
+
+def sfunc(a: int = 0, b: str = "x", *, c: Optional[float] = None, **kw):
+    rt.point("cb:sfunc")
+    return a
+
+
 class LBase(SimObj):
     """target of a parse-time link whose value is a whole group: what the link has to hand over (a dict or the
     group itself) depends on the class chosen at the moment"""
@@ -229,6 +262,20 @@ def pos_int(s):
     v = int(s)
     if v <= 0:
         raise ValueError("expected a positive int")
+    return v
+
+
+def ate_int(s):
+    """a type= function that reports bad values the way argparse documents: ArgumentTypeError"""
+    import argparse
+
+    rt.point("cb:ate_int")
+    try:
+        v = int(s)
+    except (TypeError, ValueError):
+        raise argparse.ArgumentTypeError("not an int: %r" % (s,))
+    if v < 0:
+        raise argparse.ArgumentTypeError("negative")
     return v
 
 
